@@ -237,6 +237,11 @@ def analyse_function(rep, prop, F, f, scalar, kind):
     """Returns number of compared observables."""
     site0 = "%s::%s" % ((f.get("cls") or "").replace("manif::", ""), f["short"])
     n_obs = 0
+    # the two-world evaluation assumes the function is pure (R-EFFECT): a body that casts constness away may
+    # rewrite the very coefficients it reads, which this domain does not model -> inconclusive, never a verdict
+    if any(x.get("constcast") or x.get("dropsconst") for x in A.walk(f)):
+        rep.broke("R-JET: %s casts constness away (see R-EFFECT); the jet comparison does not model writes to the receiver" % site0)
+        return 0
     # sign cases: discover lazily
     sign_keys = []
     for _ in range(3):
